@@ -6,6 +6,7 @@ import json
 import os
 import sys
 import time
+import faulthandler
 import traceback
 
 VERIF = os.path.dirname(os.path.dirname(os.path.abspath(__file__)))
@@ -47,6 +48,11 @@ def jsonable(x, depth=0):
     if isinstance(x, (list, tuple)):
         return [jsonable(v, depth + 1) for v in list(x)[:60]]
     return short(x, 600)
+
+
+# per-case wall-clock watchdog of shard workers (seconds; 0 = off). A firing is never a verdict: the parent reports 'inconclusive'.
+CASE_WATCHDOG_S = int(os.environ.get('VERIF_CASE_WATCHDOG', '0'))
+_CASE_FD = os.open(os.environ['VERIF_CASE_FILE'], os.O_WRONLY | os.O_CREAT) if (CASE_WATCHDOG_S and os.environ.get('VERIF_CASE_FILE')) else None
 
 
 class Sink:
@@ -103,11 +109,20 @@ class Sink:
 
     def guard(self, key, clause, case, fn):
         """Run an oracle body; an unexpected exception inside the *oracle* is itself reported."""
+        if CASE_WATCHDOG_S:
+            # a C-level watchdog thread (needs no GIL): a case that does not finish - e.g. an endless loop inside the extension - ends
+            # the worker with the python stack on stderr instead of hanging the whole check; the parent reports it as inconclusive
+            if _CASE_FD is not None:
+                os.pwrite(_CASE_FD, f'CASE {key} {str(case)[:380]}'.encode('utf-8', 'replace')[:400].ljust(400), 0)
+            faulthandler.dump_traceback_later(CASE_WATCHDOG_S, exit=True)
         try:
             return fn()
         except Exception:  # noqa: BLE001
             self.violation(key + '/oracle-exception', clause, case, traceback.format_exc()[-1500:])
             return None
+        finally:
+            if CASE_WATCHDOG_S:
+                faulthandler.cancel_dump_traceback_later()
 
     # ---- finishing
     def finish(self, rule, assumptions=(), exhaustive=False, extra_cov=None):  # noqa: C901
